@@ -1815,3 +1815,21 @@ def gen_fault_scenario(rng):
                          send_bytes=rng.choice([1, 1, 1, 60]), sndbuf=rng.choice([64, 1 << 16]),
                          log_socket_errors=rng.random() < 0.5, expose_tracebacks=rng.random() < 0.4, maint=maint,
                          channel_timeout=rng.choice([1, 100, 120]), granularity=rng.choice(["locks", "locks", "locks", "attrs"]))
+
+
+# re-synchronised after /repo fixes b1d94ba and 1a765e6: service() reads getattr(task.request, 'path', None) in its two log
+# lines and wraps the ladder's `task.service()  # must not fail` in one more handler (except BaseException: log;
+# task.close_on_finish = True).  Neither touches a shared channel attribute, a lock or a call on a shared object; the
+# worker now reaches the tail of service() where it used to leave it with the exception (C09_escape states the new flow).
+EXPECTED_SHAPE['service'] = (
+    ('R:requests 0 if( .error ){ } else{ } try{ if( and( R:connected , not R:will_close , ) ){ service() } else{ True '
+     '.close_on_finish= } } except(ClientDisconnected){ None True .close_on_finish= } except(BaseException){ None if( '
+     'not ){ if( ){ } else{ } .error= .version= None .command= try{ } except(KeyError){ } try{ service() } '
+     'except(ClientDisconnected){ True .close_on_finish= } except(BaseException){ True .close_on_finish= } } else{ True '
+     '.close_on_finish= } } if( .close_on_finish ){ with(requests_lock){ True W:close_when_flushed for( R:requests ){ '
+     'close() } W:requests } } else{ if( R:requests len() Gt 1 ){ _flush_outbufs_below_high_watermark() } if( '
+     'R:current_outbuf_count Gt 0 ){ .outbuf_high_watermark W:current_outbuf_count } close() with(requests_lock){ 0 '
+     'R:requests pop() if( and( R:connected , R:requests , ) ){ add_task() } else{ if( and( R:connected , R:request '
+     'IsNot None , R:request .expect_continue , R:request .headers_finished , not R:sent_continue , ) ){ do_close=False '
+     'send_continue() } } } } if( R:connected ){ pull_trigger() } W:last_activity')
+)
